@@ -23,6 +23,8 @@ KINDS = {
     'p{l1\rl2}': (False, None),          # text lines separated by a lone CR are lines too
     'p{\nl2}': (False, None),             # text that opens with its only line break
     '{n: ${0}}': (False, None), 'em{i ${0}}': (False, None),      # text that ends with the field its children replace
+    'x[id]': (False, ''), 'x[class=""]': (False, ''),            # a comment trigger without a value: a comment with an empty payload
+    'html': (False, None),                                         # in the default output.formatSkip list
     # text-only nodes whose children are written in place of the first field (clause (i) only)
     '{a ${0} b}': (False, None), '{[${0}${1:f}]}': (False, None),
 }
@@ -39,7 +41,7 @@ OPTION_SPACE = {
     'output.baseIndent': ['', '  '],
     'output.inlineBreak': [3, 0, 1],
     'output.formatLeafNode': [False, True],
-    'output.formatSkip': [['html'], ['div']],
+    'output.formatSkip': [['html'], ['div'], []],
     'output.formatForce': [['body'], ['div']],
     'comment': ['off', 'after', 'before'],
     'output.selfClosingStyle': [None, 'html', 'xhtml', 'xml'],
@@ -232,7 +234,7 @@ def check(seq, labels, syntax, opts):
         if comments:
             bad.append(('comment:present-although-disabled', dict(abbr=abbr, output=out[:300])))
     else:
-        want = [ALL[k][1] for k, _ in els if ALL[k][1]]
+        want = [ALL[k][1] for k, _ in els if ALL[k][1] is not None]
         if len(comments) != len(want):
             bad.append(('comment:count', dict(abbr=abbr, expected=len(want), got=len(comments), output=out[:300])))
         else:
@@ -245,15 +247,15 @@ def check(seq, labels, syntax, opts):
                     k += 1
                     kind, has_ch = els[k] if k < len(els) else (None, False)
                     void = kind is not None and ALL[kind][0] and not has_ch
-                    if cm == 'before' and kind is not None and ALL[kind][1]:
+                    if cm == 'before' and kind is not None and ALL[kind][1] is not None:
                         prev = sig[idx - 1] if idx else None
-                        if not prev or prev[0] != 'comment' or prev[1].strip() != '<!-- %s -->' % ALL[kind][1]:
+                        if not prev or prev[0] != 'comment' or ' '.join(prev[1].split()) != ' '.join(('<!-- %s -->' % ALL[kind][1]).split()):
                             bad.append(('comment:not-before-its-element', dict(abbr=abbr, element=kind, output=out[:300])))
                     if not void:
                         stack.append(kind)
                 elif e[0] == 'c':
                     kind = stack.pop() if stack else None
-                    if cm == 'after' and kind is not None and ALL[kind][1]:
+                    if cm == 'after' and kind is not None and ALL[kind][1] is not None:
                         nxt = sig[idx + 1] if idx + 1 < len(sig) else None
                         if not nxt or nxt[0] != 'comment' or nxt[1].strip() != '<!-- /%s -->' % ALL[kind][1]:
                             bad.append(('comment:not-after-its-element', dict(abbr=abbr, element=kind, output=out[:300])))
